@@ -18,6 +18,8 @@ from vt.main import decide
 from translate import kw_tr
 import pegdump
 from props import kw_common as K
+from props import build_common as B
+import mmdump
 
 CORPUS_DIR = os.path.join(core.VERIF, "corpus", "C20")
 
@@ -111,6 +113,7 @@ def run(chk):
 
     # ---------------------------------------------------------------- Coq side
     per_case = []
+    nbuild, build_budget = [0], (300 if chk.thorough else 45)
     for ci, (case, res) in enumerate(zip(cases, results)):
         d = res.get("dump")
         if d is None:
@@ -118,6 +121,8 @@ def run(chk):
         texts = list(case["inputs"]) + K.literal_texts(d) + [v["input"] for r_ in res["runs"] for v in r_.get("variants", [])]
         _, _, lo = K.class_extras(texts)
         lets = [("g", pegdump.coq_grammar(d)), ("c", pegdump.coq_config(d)), ("lo", "lower_of %s" % K.coq_pairs(lo))]
+        if res.get("mm") is not None:
+            lets.append(("m", mmdump.coq_mm(res["mm"])))
         parts, keys = [], []
         for ii, (text, run_) in enumerate(zip(case["inputs"], res["runs"])):
             if run_.get("timeout") or run_.get("unsupported"):
@@ -129,6 +134,14 @@ def run(chk):
                     pegdump.coq_table(run_["table"]), pegdump.coq_table(v["table"]), pegdump.coq_str(text), pegdump.coq_str(v["input"]),
                     pegdump.coq_table(v["table"]), K.FUEL, pegdump.coq_str(v["input"])))
                 keys.append((ci, ii, vi))
+            # model level, on a sample: parse + Model/Build.v on the original and on (at most two of) its variants
+            if res.get("mm") is not None and run_.get("variants") and nbuild[0] < build_budget and (case.get("tag", "").startswith("corpus") or (ci + ii) % 2 == 0):
+                nbuild[0] += 1
+                parts.append(K.build_part("g", "c", "m", run_, res, text))
+                keys.append((ci, ii, "b", -1))
+                for vi, v in enumerate(run_["variants"][:2]):
+                    parts.append(K.build_part("g", "c", "m", v, res, v["input"]))
+                    keys.append((ci, ii, "b", vi))
         if parts:
             per_case.append((lets, parts, keys))
     mvals, errs = K.eval_cases("C20", per_case)
@@ -138,6 +151,7 @@ def run(chk):
         chk.notes.append("coq evaluation errors: " + " || ".join(e[-600:] for e in errs[:3]))
 
     nvar = nhyp = 0
+    nmodel = [0]
     for ci, (case, res) in enumerate(zip(cases, results)):
         if res["grammar_error"]:
             chk.stat("grammar rejected: " + res["grammar_error"].split(":")[0])
@@ -172,6 +186,34 @@ def run(chk):
             chk.stat("literal-matched cased letters: %s" % (min(len(run_["lit_pos"]), 8)))
             if not run_["variants"]:
                 chk.count(json.dumps([case["grammar"], case["opts"], text]), nontrivial=False)
+            # ---- model level (sample): Coq Build vs the implementation's model; original vs variants related
+            b0 = mvals.get((ci, ii, "b", -1))
+            if b0 is not None:
+                mo0 = B.model_outcome(b0)
+                if mo0.get("err") in ("unsup",) or str(mo0.get("err", "")).startswith("eval:"):
+                    chk.stat("model level: outside the fragment of Model/Build.v")
+                else:
+                    chk.stat("model level: originals built in Coq")
+                    if not B.outcomes_agree(mo0, run_["model01"]):
+                        disagreements.append({"case": cinfo, "impl": run_["model01"], "model": mo0, "what": "Model/Build.v vs model_from_str"})
+                    for vi, v in enumerate(run_["variants"][:2]):
+                        bv = mvals.get((ci, ii, "b", vi))
+                        if bv is None:
+                            continue
+                        mov = B.model_outcome(bv)
+                        nmodel[0] += 1
+                        if not B.outcomes_agree(mov, v["model01"]):
+                            disagreements.append({"case": dict(cinfo, variant=v["input"]), "impl": v["model01"], "model": mov, "what": "Model/Build.v vs model_from_str"})
+                        # C20_model_structure instance (evaluated): the two Coq object graphs are related up to case
+                        same = (mo0["ok"] and mov["ok"] and K.shape_rel(mo0["value"], mov["value"], False)) or (not mo0["ok"] and mo0 == mov)
+                        hypv = (mvals.get((ci, ii, vi)) or "?").startswith("T")
+                        if hypv and not same:
+                            disagreements.append({"case": dict(cinfo, variant=v["input"]), "impl": None, "model": [mo0, mov], "what": "C20_model_structure instance contradicted by evaluation"})
+                        # and on the implementation (C01/C06 dump format: positions, locations, parents)
+                        i0, iv = run_["model01"], v["model01"]
+                        same_i = (i0["ok"] and iv["ok"] and K.shape_rel(B.strip_impl(i0["value"]), B.strip_impl(iv["value"]), False)) or (not i0["ok"] and i0.get("err") == iv.get("err"))
+                        if hypv and not same_i:
+                            failures.append({"case": dict(cinfo, variant=v["input"]), "what": "object graph changes beyond the letter case of strings", "tags": [], "impl": [i0, iv]})
             for vi, v in enumerate(run_["variants"]):
                 nvar += 1
                 t1, m1, text1 = v["tree"], v["model"], v["input"]
@@ -220,6 +262,7 @@ def run(chk):
                 if nvar % 97 == 5:
                     chk.sample({"grammar": case["grammar"], "opts": case["opts"], "input": text, "variant": text1, "outcome": t1[:100]})
     chk.cov["variants"] = nvar
+    chk.cov["variants_built_in_coq"] = nmodel[0]
     chk.cov["variants_under_hypotheses"] = nhyp
     chk.cov["rule"] = ("generated textX grammars (2-6 rules; sequences, choices, repetitions with keyword/symbol/regex separators, predicates, "
                        "assignments, base types incl. BOOL, user regexes with letter classes, keyword literals in mixed case, literals with "
